@@ -479,6 +479,55 @@ class C02(PropBase):
             return {"sig": "unparsable", "what": "balance report row cannot be parsed: %s" % str(rows)[:300]}
         return None
 
+    def shrink(self, f):
+        """drop transactions, then postings, while the same oracle failure persists"""
+        case, sig = f["case"], f["oracle"]["sig"]
+        best = dict(f)
+        budget = 80
+
+        def attempt(txns):
+            nonlocal budget
+            if budget <= 0 or not txns:
+                return None
+            budget -= 1
+            cand = dict(case)
+            cand["txns"] = txns
+            cand["text"] = common.render_journal(txns)
+            cand["no_price"] = not uses_price(txns)
+            impl = common.run_driver([common.TK_IMPL], [self.impl_case(cand)], jobs=1)[0]
+            of = self.oracle(cand, impl)
+            if of and of.get("sig") == sig:
+                model = common.run_driver([common.TK_MODEL], [self.model_case(cand)], jobs=1)[0]
+                return dict(case=cand, impl=impl, model=model, oracle=of)
+            return None
+
+        changed = True
+        while changed and budget > 0:
+            changed = False
+            txns = best["case"]["txns"]
+            for i in range(len(txns)):
+                r = attempt(txns[:i] + txns[i + 1:])
+                if r:
+                    best, changed = r, True
+                    break
+            if changed:
+                continue
+            for i, t in enumerate(txns):
+                for j in range(len(t["posts"])):
+                    if len(t["posts"]) <= 1:
+                        break
+                    t2 = dict(t)
+                    t2["posts"] = t["posts"][:j] + t["posts"][j + 1:]
+                    if not t2.get("last"):
+                        t2["last"] = {"acct": "zz:shrink", "comment": None}
+                    r = attempt(txns[:i] + [t2] + txns[i + 1:])
+                    if r:
+                        best, changed = r, True
+                        break
+                if changed:
+                    break
+        return best
+
     def nontrivial(self, case, impl):
         keys, posted = set(), set()
         for t in case.get("txns", []):
@@ -514,7 +563,7 @@ class C02(PropBase):
     def assumptions(self):
         return ["posting amounts have scale <= 28 (representation invariant of rust_decimal, Dec.ofToken)",
                 "account names determine account paths (components are non-empty and contain no ':'; hypothesis NamesInj of "
-                "the theorems, proved from that condition by acctName_injective)",
+                "the theorems, proved from that condition by C02.namesInj_of_good / KeyOrder.acctName_inj)",
                 "inexact decimal arithmetic is outside the modelled domain (DESIGN.md F17, known finding)"]
 
 
